@@ -44,7 +44,7 @@ STATES = ['running', 'finished', 'failed', 'initialising', 'suspended']
 
 def gen_case(seed, tier, index=0):
     rr = random.Random(seed)
-    writer = ['status', 'output', 'details', 'instance', 'instance-loop', 'manifest'][index % 6]
+    writer = ['status', 'output', 'details', 'instance', 'instance-loop', 'manifest', 'dosini-instance'][index % 7]
     n = rr.choice([1, 2, 3, 5, 8])
     ups = []
     for i in range(n):
@@ -68,8 +68,12 @@ def gen_case(seed, tier, index=0):
         elif writer in ('instance', 'manifest'):
             ups.append({'node': rr.choice(['stage0.A', 'stage0.B']), 'key': rr.choice(['#command.arguments', 'myvar']),
                         'value': rr.choice(['hello', 'x y z', '%(myvar)s-1', 'café'])})
+        elif writer == 'dosini-instance':
+            ups.append({'open': True})
         else:
             ups.append({'iterate': True})
+    if writer == 'dosini-instance':
+        ups = ups[:rr.choice([1, 2])]
     if writer == 'instance-loop':
         ups = ups[:rr.choice([1, 2, 3])]
     return {'writer': writer, 'updates': ups, 'fs_seed': rr.getrandbits(32)}
@@ -387,7 +391,68 @@ class InstanceWorkload(Workload):
         return []  # content fidelity of the instance description is C07
 
 
+class DosiniWorkload(Workload):
+    """the instance description of an instance created from a DOSINI package (conf/experiment.instance.conf +
+    conf/stages.d/stage<N>.instance.conf): it is written again every time the instance is opened"""
+
+    def setup(self, root):
+        import experiment.model.storage as S
+        import experiment.model.data as D
+        self.D = D
+        pkg = os.path.join(root, '%s.package' % os.path.basename(root))
+        c = os.path.join(pkg, 'conf')
+        os.makedirs(os.path.join(c, 'stages.d'))
+        os.makedirs(os.path.join(c, 'variables.d'))
+        os.makedirs(os.path.join(pkg, 'data'))
+        files = {
+            'data/in.txt': 'hello\n',
+            'conf/experiment.conf': "[DEFAULT]\nname=Test\n[SANDBOX]\n[ENV-MYENV]\nFOO=bar\n",
+            'conf/variables.conf': "[GLOBAL]\nn=2\nmsg=hi\n[STAGE1]\nk=1\n",
+            'conf/stages.d/stage0.conf': ("[DEFAULT]\njob-type=local\n[Gen]\nexecutable=echo\narguments=%(msg)s data/in.txt:ref\n"
+                                          "references=data/in.txt:ref\nenvironment=myenv\nreplicate=%(n)s\n"
+                                          "[Agg]\nexecutable=cat\narguments=Gen:ref/out.stdout\nreferences=Gen:ref\naggregate=yes\n"),
+            'conf/stages.d/stage1.conf': ("[DEFAULT]\njob-type=local\n[Final]\nexecutable=cat\n"
+                                          "arguments=stage0.Agg:output %(k)s\nreferences=stage0.Agg:output\n"),
+            'conf/status.conf': "[STAGE0]\nstage-weight=0.5\n[STAGE1]\nstage-weight=0.5\n",
+        }
+        for rel, text in files.items():
+            with open(os.path.join(pkg, rel), 'w') as f:
+                f.write(text)
+        os.chdir(root)
+        ep = S.ExperimentPackage.packageFromLocation(pkg)
+        exp = D.Experiment.experimentFromPackage(ep, location=root)
+        self.inst = exp.instanceDirectory.location
+        cdir = os.path.join(self.inst, 'conf')
+        self.files = (os.path.join(cdir, 'experiment.instance.conf'), os.path.join(cdir, 'stages.d', 'stage0.instance.conf'),
+                      os.path.join(cdir, 'stages.d', 'stage1.instance.conf'))
+        self.components = sorted(exp.experimentGraph.graph.nodes)
+        del exp
+
+    def apply(self, i, u):
+        # opening the instance with the default arguments stores its description again
+        self.D.Experiment.experimentFromInstance(self.inst)
+
+    rewrite = lambda self: self.apply(0, None)
+
+    def loads(self, path):
+        import configparser
+        cfg = configparser.ConfigParser(interpolation=None)
+        with open(path) as f:
+            cfg.read_file(f)
+        if path.endswith('experiment.instance.conf'):
+            if not any(sec.upper().startswith('ENV-') for sec in cfg.sections()):
+                raise ValueError('experiment.instance.conf lost its environments')
+        elif not cfg.sections():
+            raise ValueError('stage file without components')
+        return dict((sec, dict(cfg.items(sec, raw=True))) for sec in cfg.sections())
+
+    def fidelity(self):
+        return []
+
+
 def make_workload(writer):
+    if writer == 'dosini-instance':
+        return DosiniWorkload()
     if writer == 'status':
         return StatusWorkload()
     if writer == 'output':
@@ -527,7 +592,7 @@ def run_case(case, schedule, opts):
         variants = [(k, kind) for k in ks for kind in FAULT_KINDS]
         if case.get('only'):
             variants = [tuple(case['only'])]
-        reuse = isinstance(w, InstanceWorkload) and writer != 'instance-loop'
+        reuse = (isinstance(w, InstanceWorkload) and writer != 'instance-loop') or isinstance(w, DosiniWorkload)
         for vi, (k, kind) in enumerate(variants):
             bk = blog[k - 1][1]
             if kind == 'rename-fail' and bk not in ('rename', 'replace'):
